@@ -491,7 +491,7 @@ class Origins:
 
     @staticmethod
     def _const(op):
-        for key in ("int", "bool", "char", "str", "bytes", "fn", "closure"):
+        for key in ("static", "int", "bool", "char", "str", "bytes", "fn", "closure"):
             if key in op:
                 v = op[key]
                 if isinstance(v, list):
@@ -520,11 +520,23 @@ class Origins:
             fld = [pe.get("name", str(pe.get("idx"))) for pe in place["p"] if pe["k"] == "field"]
             out.add(("param", l, ".".join(fld)))
         defs = body.defs.get(l, [])
+        # field of an aggregate built in this body: look through to the operand stored in that field
+        fproj = [(i, pe) for i, pe in enumerate(place["p"]) if pe["k"] == "field"]
         for d in defs:
             if d[0] == "assign":
                 s = d[3]
                 if s["k"] == "setdiscr":
                     out.add(("setdiscr", d[1], s["variant"]))
+                    continue
+                rv = s["rv"]
+                if rv["k"] == "aggregate" and rv.get("agg") in ("tuple", "adt") and fproj and fproj[0][1]["idx"] < len(rv["ops"]) \
+                        and all(pe["k"] in ("downcast", "deref") for pe in place["p"][:fproj[0][0]]):
+                    op = rv["ops"][fproj[0][1]["idx"]]
+                    rest = place["p"][fproj[0][0] + 1:]
+                    if op["k"] in ("copy", "move"):
+                        out |= self.of_place({"l": op["place"]["l"], "p": list(op["place"]["p"]) + list(rest)}, seen - {op["place"]["l"]})
+                    else:
+                        out |= self.of_operand(op, seen)
                     continue
                 out |= self.of_rvalue(s["rv"], d[1], d[2], seen)
             elif d[0] == "partial":
